@@ -39,7 +39,18 @@ void fatal(char *fmt, ...) { V_STOP(); }
 int debug_message_with_src(const char *a, const char *b, const char *c, int d, const char *e, ...) { return 0; }
 void free_string_svalue(svalue_t *v) { if (G_frees < 10) G_frees++; }
 /* trusted copy semantics (reference counting is C06's subject) */
-void assign_svalue_no_free(svalue_t *to, svalue_t *from) { *to = *from; }
+void assign_svalue_no_free(svalue_t *to, svalue_t *from) {
+  int live = __CPROVER_r_ok(from, sizeof(*from)) && __CPROVER_w_ok(to, sizeof(*to));
+  V_ASSERT(live, "assign_svalue_no_free is given a live source and destination svalue");
+  if (!live) V_STOP();
+  *to = *from;
+}
+void assign_svalue(svalue_t *to, svalue_t *from) {
+  int live = __CPROVER_r_ok(from, sizeof(*from)) && __CPROVER_w_ok(to, sizeof(*to));
+  V_ASSERT(live, "assign_svalue is given a live source and destination svalue");
+  if (!live) V_STOP();
+  *to = *from;
+}
 
 static char *v_alloc(size_t n) {
   if (n > 20 || G_next_str >= 2) V_STOP();
@@ -54,15 +65,21 @@ char *extend_string(char *str, size_t n) {
   for (int i = 0; i < 4 && i < MSTR_SIZE(str); i++) r[i] = str[i];
   return r;
 }
-#ifdef VM_NO_CONTAINERS
-/* the harness generates no array / mapping / buffer operands: reaching one of their helpers would be a harness error.
-   (Without bodies CBMC returns an unconstrained pointer and the memcpy behind it touches every object: 10 GB.) */
+/* Container helpers. A harness that generates operands of a container type defines VM_HAVE_<TYPE> and supplies the helpers
+   itself; otherwise reaching one of them is a harness error. (Without bodies CBMC returns an unconstrained pointer and the
+   memcpy behind it touches every object: 10 GB.) */
+#ifndef VM_HAVE_BUFFER
 buffer_t *allocate_buffer(size_t n) { V_UNREACHABLE_STUB("allocate_buffer"); V_STOP(); return 0; }
 void free_buffer(buffer_t *b) { V_UNREACHABLE_STUB("free_buffer"); V_STOP(); }
+#endif
+#ifndef VM_HAVE_ARRAY
 array_t *add_array(array_t *a, array_t *b) { V_UNREACHABLE_STUB("add_array"); V_STOP(); return 0; }
+void free_array(array_t *a) { V_UNREACHABLE_STUB("free_array"); V_STOP(); }
+#endif
+#ifndef VM_HAVE_MAPPING
 mapping_t *add_mapping(mapping_t *a, mapping_t *b) { V_UNREACHABLE_STUB("add_mapping"); V_STOP(); return 0; }
 void free_mapping(mapping_t *m) { V_UNREACHABLE_STUB("free_mapping"); V_STOP(); }
-void free_array(array_t *a) { V_UNREACHABLE_STUB("free_array"); V_STOP(); }
+svalue_t *find_in_mapping(mapping_t *m, svalue_t *k) { V_UNREACHABLE_STUB("find_in_mapping"); V_STOP(); return 0; }
 #endif
 #ifndef V_NATIVE
 /* libc model: sprintf cannot know the size of its destination, so the obligation is that the destination holds the
